@@ -89,7 +89,6 @@ type SimPeer struct {
 	w    *World
 	idx  int
 	addr *net.TCPAddr
-	up   bool
 	// view is the tip of the chain this node serves.
 	view      *chainmodel.Block
 	pastViews []*chainmodel.Block
@@ -134,6 +133,9 @@ type SimPeer struct {
 }
 
 func (p *SimPeer) String() string { return p.addr.String() }
+
+// setUp makes the node reachable or unreachable for new connections.
+func (p *SimPeer) setUp(up bool) { p.w.net.setUp(p.addr.String(), up) }
 
 func (p *SimPeer) attach(c *simConn) {
 	p.conn = c
@@ -188,6 +190,13 @@ func (p *SimPeer) sendWith(msg wire.Message, reliable bool, delivered func()) {
 		return
 	}
 	w := p.w
+	if w.freeRun {
+		c.deliver(encodeMsg(msg, w.net.bnet, wire.WitnessEncoding))
+		if delivered != nil {
+			delivered()
+		}
+		return
+	}
 	b := p.beh
 	if !reliable && b.DropPct > 0 && w.tp.Chance(b.DropPct, 100) {
 		w.rc.Fault("net.drop")
@@ -647,7 +656,7 @@ func (p *SimPeer) serveBlock(h chainhash.Hash) {
 	if k, ok := p.beh.BlockLie[h]; ok {
 		kind = k
 	}
-	if kind != blkHonest {
+	if kind != blkHonest && !p.w.freeRun {
 		p.w.rc.Fault("block." + blkNames[kind])
 	}
 	msg := cloneBlock(blk.Msg)
